@@ -1,7 +1,7 @@
 (* C18 — NetConn is a faithful byte stream with correct EOF, type check and deadlines.
-   Statements only; proofs in Proofs/NetConnP.v. *)
+   Statements only; proofs in Proofs/NetConnP.v and Proofs/NetConnEofP.v. *)
 From Coq Require Import List NArith ZArith Bool.
-From WS Require Import Base.Words Gen.Consts Model.NetConn Proofs.NetConnP.
+From WS Require Import Base.Words Gen.Consts Model.NetConn Proofs.NetConnP Proofs.NetConnEofP.
 Import ListNotations.
 
 (* the byte stream: whatever the write sizes (one message per Write, empty messages included) and whatever the positive
@@ -48,3 +48,21 @@ Example C18_nonvacuous :
   let s := nc_init 2 [NMsg 2 [1;2;3]%N; NMsg 2 []; NMsg 2 [4]%N; NClose 1000] in
   map nres_bytes (fst (nc_reads s [2; 2; 2; 2]%nat)) = [[1;2]; [3]; [4]; []]%N /\ fst (nc_read 9 (snd (nc_reads s [2; 2; 2]%nat)) 5) = NEOF.
 Proof. vm_compute. split; reflexivity. Qed.
+
+(* CONVERSE: a clean end of stream is reported ONLY for a normal / going-away Close frame — never for a failure of the connection
+   (a dropped transport, a protocol error, a context that ended), another close code or a message of the wrong type. *)
+Theorem C18_eof_only_after_normal_close : forall fuel s n s',
+  nc_eofed s = false -> nc_read fuel s n = (NEOF, s') ->
+  exists pre code r,
+    nc_in s = pre ++ NClose code :: r /\
+    (code = c_StatusNormalClosure \/ code = c_StatusGoingAway) /\
+    Forall (fun i => i = NMsg (nc_typ s) []) pre /\
+    (nc_cur s = None \/ nc_cur s = Some []) /\
+    nc_in s' = r /\ nc_eofed s' = true.
+Proof. exact nc_eof_only_after_normal_close. Qed.
+Print Assumptions C18_eof_only_after_normal_close.
+
+(* ... so over ANY sequence of reads of a connection that never receives such a Close frame, io.EOF is never returned *)
+Theorem C18_fail_never_eof : forall calls s, no_normal_close (nc_in s) -> nc_eofed s = false -> ~ In NEOF (fst (nc_run s calls)).
+Proof. exact nc_fail_never_eof_run. Qed.
+Print Assumptions C18_fail_never_eof.
